@@ -440,6 +440,14 @@ pub fn run(ctx: &Ctx) -> Report {
     if let Some(w) = &ctx.replay {
         let mut rep = Report::new();
         match w["kind"].as_str() {
+            Some("capacity") => {
+                let which = match (w["limit"].as_str(), w["mode"].as_str()) {
+                    (Some("rows-65536"), _) => 0,
+                    (_, Some("one-batch")) => 1,
+                    _ => 2,
+                };
+                crate::props::c20::capacity_for_c04(which, &mut rep);
+            }
             Some("state") => run_case(w["seed"].as_u64().unwrap_or(ctx.seed), w["case"].as_u64().unwrap_or(0), &mut rep),
             Some("isolated") => run_family_isolated(
                 w["seed"].as_u64().unwrap_or(ctx.seed),
@@ -456,6 +464,12 @@ pub fn run(ctx: &Ctx) -> Report {
     let seed = ctx.seed;
     let mut rep = parallel(ctx.threads, |shard, n| {
         let mut rep = Report::new();
+        // refused calls at the capacity limits (row limit, full pool, nearly full pool)
+        for which in 0..3 {
+            if (n >= 3 && shard == which) || (n < 3 && shard == 0) {
+                crate::props::c20::capacity_for_c04(which, &mut rep);
+            }
+        }
         let mut k = 0usize;
         for fam_idx in 0..90usize {
             for v in 0..variants {
